@@ -433,6 +433,147 @@ func (g *pgen) function(flavour string, nparams int) *Node {
 	return Func(flavour, "", Params(ps...), body...)
 }
 
+// ---- idioms: shapes at which a compiler takes a decision that the semantics must not show ----
+
+// IdiomHits counts the idioms generated (per kind).
+var IdiomHits = map[string]int{}
+
+// closureOver returns an expression evaluating to a function that returns (or updates) the variable name,
+// created in one of the ways that make the compiler allocate the variable differently.
+func (g *pgen) closureOver(name string) *Node {
+	ret := Id(name)
+	var body *Node = ret
+	if g.chance(25, "cl upd") {
+		body = Update("++", g.coin("cl pre"), Id(name))
+	}
+	switch g.draw(6, "clkind") {
+	case 0:
+		return Func("function", "", Params(), Return(body))
+	case 1:
+		return ArrowExpr(Params(), body)
+	case 2:
+		// the closure exists only at run time: created by a direct eval
+		return Eval(ExprStmt(Paren(Func("function", "", Params(), Return(body)))))
+	case 3:
+		return Eval(ExprStmt(ArrowExpr(Params(), body)))
+	case 4:
+		return Dot(Obj(Method(Key("m"), false, Func("method", "", Params(), Return(body)))), "m")
+	}
+	// two levels of nesting
+	return ArrowExpr(Params(), Call(ArrowExpr(Params(), body)))
+}
+
+func (g *pgen) idiom() *Node {
+	switch g.draw(3, "idiom") {
+	case 0:
+		// temporal dead zone: a use of a lexical binding before its declaration, the binding being a plain local,
+		// captured by a closure, or visible to eval
+		IdiomHits["tdz"]++
+		x := g.fresh("z")
+		var use *Node
+		switch g.draw(7, "tdzuse") {
+		case 0:
+			use = Log(Id(x))
+		case 1:
+			use = ExprStmt(Set(Id(x), g.literal())) // statement position: the value is discarded
+		case 2:
+			use = Log(Set(Id(x), g.literal()))
+		case 3:
+			use = ExprStmt(Assign("+=", Id(x), Num(1)))
+		case 4:
+			use = Log(Typeof(Id(x)))
+		case 5:
+			use = Log(Call(ArrowExpr(Params(), Id(x))))
+		default:
+			use = ExprStmt(Update("++", false, Id(x)))
+		}
+		guarded := Try(Block(use, Log(Str("no TDZ error"))), Id("e"), Block(Log(Dot(Id("e"), "name"))), nil)
+		kind := []string{"let", "let", "const"}[g.draw(3, "tdzkind")]
+		stmts := []*Node{guarded, VarDecl(kind, Declarator(Id(x), g.literal()))}
+		switch g.draw(4, "tdzcap") {
+		case 0:
+			stmts = append(stmts, FuncDecl("function", g.fresh("cap"), Params(), Return(Id(x))))
+		case 1:
+			stmts = append(stmts, Log(Call(g.closureOver(x))))
+		case 2:
+			stmts = append(stmts, Log(Eval(ExprStmt(Id(x)))))
+		}
+		stmts = append(stmts, Log(Id(x)))
+		if kind == "let" && g.coin("tdz after") {
+			stmts = append(stmts, ExprStmt(Set(Id(x), g.literal())), Log(Id(x)))
+		}
+		return Block(stmts...)
+	case 1:
+		// per-iteration bindings: closures created in a loop are called after it
+		IdiomHits["loop-closures"]++
+		fns, i := g.fresh("fns"), g.fresh("i")
+		push := func(c *Node) *Node { return ExprStmt(Call(Dot(Id(fns), "push"), c)) }
+		var loop *Node
+		switch g.draw(5, "lckind") {
+		case 0, 1:
+			body := []*Node{push(g.closureOver(i))}
+			if g.chance(30, "lc bump") {
+				body = append(body, ExprStmt(Assign("+=", Id(i), Num(1))))
+			}
+			if g.chance(30, "lc two") {
+				body = append(body, push(g.closureOver(i)))
+			}
+			loop = For(VarDecl("let", Declarator(Id(i), Num(0))), Bin("<", Id(i), Num(float64(2+g.draw(2, "lcb")))), Update("++", false, Id(i)), Block(body...))
+		case 2:
+			loop = ForOf(VarDecl([]string{"let", "const"}[g.draw(2, "lcof")], Declarator(Id(i), nil)), Arr(Num(1), Num(2)), Block(push(ArrowExpr(Params(), Id(i))), push(g.closureOver(i))))
+			if g.coin("lc ofconst") {
+				loop = ForOf(VarDecl("const", Declarator(Id(i), nil)), Arr(Num(1), Num(2)), Block(push(Eval(ExprStmt(ArrowExpr(Params(), Id(i)))))))
+			}
+		case 3:
+			loop = ForIn(VarDecl("let", Declarator(Id(i), nil)), Obj(Prop("a", Num(1)), Prop("b", Num(2))), Block(push(g.closureOver(i))))
+		default:
+			// a block-scoped binding inside a while loop
+			w, b := g.fresh("w"), g.fresh("b")
+			loop = Block(VarDecl("var", Declarator(Id(w), Num(0))),
+				While(Bin("<", Id(w), Num(2)), Block(VarDecl("let", Declarator(Id(b), Bin("*", Id(w), Num(10)))), push(g.closureOver(b)), ExprStmt(Update("++", false, Id(w))))))
+		}
+		return Block(VarDecl("const", Declarator(Id(fns), Arr())), loop,
+			Log(Call(Dot(Id(fns), "map"), ArrowExpr(Params(Id("f")), Call(Id("f"))))),
+			Log(Call(Dot(Id(fns), "map"), ArrowExpr(Params(Id("f")), Call(Id("f"))))))
+	}
+	// the arguments object: mapped for sloppy functions with a simple parameter list, unmapped otherwise
+	IdiomHits["arguments"]++
+	a, b := g.fresh("p"), g.fresh("p")
+	var ps []*Node
+	switch g.draw(5, "argshape") {
+	case 0, 1:
+		ps = []*Node{Id(a), Id(b)}
+	case 2:
+		ps = []*Node{Id(a), Default(Id(b), g.literal())}
+	case 3:
+		ps = []*Node{Id(a), Rest(Id(b))}
+	default:
+		ps = []*Node{Id(a), ArrPat(Id(b))}
+	}
+	var body []*Node
+	if g.chance(30, "arg strict") {
+		body = append(body, Directive("use strict"))
+	}
+	for i, n := 0, 1+g.draw(3, "argops"); i < n; i++ {
+		switch g.draw(4, "argop") {
+		case 0:
+			body = append(body, ExprStmt(Set(Id(a), g.literal())), Log(Idx(Id("arguments"), Num(0))))
+		case 1:
+			body = append(body, ExprStmt(Set(Idx(Id("arguments"), Num(0)), g.literal())), Log(Id(a)))
+		case 2:
+			body = append(body, ExprStmt(Set(Idx(Id("arguments"), Num(1)), g.literal())), Log(Id(b)))
+		default:
+			body = append(body, Log(Arr(Dot(Id("arguments"), "length"), Idx(Id("arguments"), Num(1)))))
+		}
+	}
+	if g.chance(30, "arg cap") {
+		body = append(body, Log(Call(ArrowExpr(Params(), Arr(Id(a), Idx(Id("arguments"), Num(0)))))))
+	}
+	body = append(body, Return(Arr(Id(a), Idx(Id("arguments"), Num(0)), Dot(Id("arguments"), "length"))))
+	args := []*Node{g.literal(), Arr(g.literal())}[:1+g.draw(2, "argn")]
+	return Log(Call(Paren(Func("function", "", Params(ps...), body...)), args...))
+}
+
 // ---- statements ----
 
 func (g *pgen) block(n int) *Node {
@@ -456,7 +597,9 @@ func (g *pgen) stmt() *Node {
 	if g.budget <= 0 {
 		return Log(g.expr())
 	}
-	switch g.draw(30, "stmt") {
+	switch g.draw(33, "stmt") {
+	case 30, 31, 32:
+		return g.idiom()
 	case 0, 1, 2, 3:
 		return Log(g.expr())
 	case 4, 5:
